@@ -526,3 +526,74 @@ example : runHistory genCfg exShape
 example : dispatch genCfg f2bShape f2bReq = (.result, [8]) := by decide
 
 end Pyro.C02
+
+/-! ### the translated predicate: `is_private_attribute` regenerated from the source on every run -/
+
+namespace Pyro.C02
+
+open Pyro.Expose
+
+theorem startsWith_one (n : List Nat) (a : Nat) : Pyro.PyLib.startsWith n [a] = (n.head? == some a) := by
+  cases n with
+  | nil => simp [Pyro.PyLib.startsWith, List.isPrefixOf]
+  | cons x t =>
+    simp only [Pyro.PyLib.startsWith, List.isPrefixOf, List.head?_cons, Bool.and_true]
+    by_cases h : a = x
+    · subst h; simp
+    · have : x ≠ a := fun e => h e.symm
+      rw [beq_eq_false_iff_ne.mpr h]
+      have : (some x == some a) = false := beq_eq_false_iff_ne.mpr (fun e => this (Option.some.inj e))
+      rw [this]
+
+theorem startsWith_take (n p : List Nat) : Pyro.PyLib.startsWith n p = (n.take p.length == p) := by
+  unfold Pyro.PyLib.startsWith
+  by_cases h : p <+: n
+  · have h1 : p.isPrefixOf n = true := List.isPrefixOf_iff_prefix.mpr h
+    have h2 : n.take p.length = p := (List.prefix_iff_eq_take.mp h).symm
+    rw [h1, h2]; simp
+  · have h1 : p.isPrefixOf n = false := by
+      cases hb : p.isPrefixOf n with
+      | false => rfl
+      | true => exact absurd (List.isPrefixOf_iff_prefix.mp hb) h
+    have h2 : ¬ n.take p.length = p := fun e => h (List.prefix_iff_eq_take.mpr e.symm)
+    rw [h1]; simp [h2]
+
+theorem endsWith_drop (n p : List Nat) : Pyro.PyLib.endsWith n p = (n.drop (n.length - p.length) == p) := by
+  unfold Pyro.PyLib.endsWith
+  by_cases h : p <:+ n
+  · have h1 : p.isSuffixOf n = true := List.isSuffixOf_iff_suffix.mpr h
+    have h2 : n.drop (n.length - p.length) = p := (List.suffix_iff_eq_drop.mp h).symm
+    rw [h1, h2]; simp
+  · have h1 : p.isSuffixOf n = false := by
+      cases hb : p.isSuffixOf n with
+      | false => rfl
+      | true => exact absurd (List.isSuffixOf_iff_suffix.mp hb) h
+    have h2 : ¬ n.drop (n.length - p.length) = p := fun e => h (List.suffix_iff_eq_drop.mpr e.symm)
+    rw [h1]; simp [h2]
+
+/-- **C02_translated_private.**  The Lean definition that `harness/py2lean.py` regenerates from the body of
+    `server.is_private_attribute` on every run denotes, for every name, the same predicate as the
+    hand-written model's `isPrivate` that all gate theorems are about. -/
+theorem C02_translated_private (n : List Nat) :
+    Pyro.Gen.C02.is_private_attribute n = isPrivate n := by
+  have htbl : Pyro.Gen.C02.is_private_attribute_tbl_private_dunder_methods = Pyro.Gen.C02.reservedDunders := by decide
+  have hlen : decide (Int.ofNat n.length > (4 : Int)) = decide (n.length > 4) := by
+    apply decide_eq_decide.mpr
+    simp only [Int.ofNat_eq_coe, gt_iff_lt]
+    constructor <;> intro h <;> omega
+  unfold Pyro.Gen.C02.is_private_attribute isPrivate isPrivateWith
+  rw [htbl, startsWith_one, startsWith_take n [95, 95], endsWith_drop n [95, 95], hlen]
+  simp only [List.length_cons, List.length_nil]
+  cases Pyro.Gen.C02.reservedDunders.contains n with
+  | true => rfl
+  | false =>
+    simp only [Bool.false_eq_true, if_false]
+    cases hh : (n.head? == some 95) with
+    | true =>
+      have h2' : (n.head? != some 95) = false := by simp [bne, hh]
+      simp [h2']
+    | false =>
+      have h2' : (n.head? != some 95) = true := by simp [bne, hh]
+      simp [h2']
+
+end Pyro.C02
